@@ -1167,8 +1167,39 @@ class HeapExec(DynExec):
                     # interval law instantiated at a known index: NOMATCH(lo,hi) and lo <= j < hi  =>  not MATCH(j)
                     self.add_fact(st, z3.Implies(z3.And(NOMATCHF(zp, zs, lo, hi), lo <= j, j < hi),
                                                  z3.Not(MATCHF(zp, zs, j))))
+            for (p2, s2, lo2, hi2) in reg['N']:
+                if (p2, s2) == (pid, snap) and not (z3.eq(lo2, lo) and z3.eq(hi2, hi)):
+                    # concatenation of adjacent intervals (valid law of the summary): [lo,hi) ++ [lo2,hi2)
+                    self.add_fact(st, z3.Implies(z3.And(NOMATCHF(zp, zs, lo, hi), NOMATCHF(zp, zs, lo2, hi2), hi == lo2),
+                                                 NOMATCHF(zp, zs, lo, hi2)))
+                    self.add_fact(st, z3.Implies(z3.And(NOMATCHF(zp, zs, lo2, hi2), NOMATCHF(zp, zs, lo, hi), hi2 == lo),
+                                                 NOMATCHF(zp, zs, lo2, hi)))
+                    # sub-interval
+                    self.add_fact(st, z3.Implies(z3.And(NOMATCHF(zp, zs, lo2, hi2), lo2 <= lo, hi <= hi2),
+                                                 NOMATCHF(zp, zs, lo, hi)))
+            for (p2, s2, j) in reg['M']:
+                if (p2, s2) == (pid, snap):
+                    # extension by one non-matching position at either end
+                    self.add_fact(st, z3.Implies(z3.And(NOMATCHF(zp, zs, lo, j), z3.Not(MATCHF(zp, zs, j)), hi == j + 1),
+                                                 NOMATCHF(zp, zs, lo, hi)))
+                    # split at a known non-matching position: [lo,j) ++ {j} ++ [j+1,hi)
+                    self.add_fact(st, z3.Implies(z3.And(lo <= j, j < hi, NOMATCHF(zp, zs, lo, j), z3.Not(MATCHF(zp, zs, j)),
+                                                        NOMATCHF(zp, zs, j + 1, hi)), NOMATCHF(zp, zs, lo, hi)))
+                    self.add_fact(st, z3.Implies(lo >= j, NOMATCHF(zp, zs, lo, j)))
+                    self.add_fact(st, z3.Implies(j + 1 >= hi, NOMATCHF(zp, zs, j + 1, hi)))
             reg['N'].append((pid, snap, lo, hi))
             return [(st, SBool(NOMATCHF(zp, zs, lo, hi)))]
+        if name == 'NEXTBY_PRED':
+            # the predicate closure that TokenList.token_next_by(i=, m=, t=) hands to _token_matching: the real lambda
+            # of the current source with these captured values (same code + same captures = same predicate identity)
+            from .core import source
+            from .symex import ClosureEnv
+            fn = source().get('sqlparse.sql.TokenList.token_next_by')
+            lams = [n for n in ast.walk(fn) if isinstance(n, ast.Lambda)] if fn is not None else []
+            if len(lams) != 1:
+                raise OutsideSubset('token_next_by no longer builds exactly one lambda')
+            env = {'i': kw.get('i'), 'm': kw.get('m'), 't': kw.get('t')}
+            return [(st, Func('sqlparse.sql.TokenList.token_next_by.<locals>.<lambda>', node=lams[0], closure=ClosureEnv(env)))]
         if name == 'ALLWS':
             # ALLWS(S, lo, hi): every element of the (never modified) snapshot list S at a position in [lo, hi) is a
             # whitespace token.  S must be a pristine view of one base from position 0 (checked structurally), so the
@@ -1201,6 +1232,25 @@ class HeapExec(DynExec):
             a, b = args
             return [(st, st.lists[a.lid] == st.lists[b.lid])]
         raise OutsideSubset('spec function %s' % name)
+
+    def transfer_nomatch_prefix(self, st, old_snap, new_snap, k):
+        """the list was modified at positions >= k only: interval summaries that lie entirely below k stay valid for
+        the new contents (instances of: same elements at the same positions => same MATCH values)"""
+        reg = st.ghost.get('__mfacts__')
+        if not reg:
+            return
+        reg = st.ghost['__mfacts__'] = {'M': list(reg['M']), 'N': list(reg['N'])}
+        zo, zn = z3.IntVal(old_snap), z3.IntVal(new_snap)
+        for (pid, s2, lo, hi) in list(reg['N']):
+            if s2 == old_snap:
+                zp = z3.IntVal(pid)
+                st.assume(z3.Implies(z3.And(NOMATCHF(zp, zo, lo, hi), hi <= k), NOMATCHF(zp, zn, lo, hi)))
+                reg['N'].append((pid, new_snap, lo, hi))
+        for (pid, s2, j) in list(reg['M']):
+            if s2 == old_snap:
+                zp = z3.IntVal(pid)
+                st.assume(z3.Implies(j < k, MATCHF(zp, zn, j) == MATCHF(zp, zo, j)))
+                reg['M'].append((pid, new_snap, j))
 
     def pristine_base(self, st, lst):
         """base id of a list that is exactly the view [0, n) of one base (segments / materialised elements in order)"""
